@@ -58,6 +58,7 @@ partial def exprOf : SX → Option Expr
   | .node "log" [a] => do pure (.log (← exprOf a))
   | .node "typeof" [.node x []] => some (.typeofVar x)
   | .node "var" [.node x []] => some (.var x)
+  | .node "cid" [a] => do pure (.callId (← exprOf a))
   | .node "obj" fs => do
       let fields ← fs.mapM (fun f => match f with
         | .node k [.node a []] => (match atomVal a with
